@@ -183,6 +183,12 @@ def effective_status(method, resp):
     try:
         rs, _ = parse_multistatus(resp.body)
     except MalformedXML:
+        if method in ("PUT", "POST", "DELETE", "MKCOL", "MKCALENDAR"):
+            # xandikos answers 207 to these methods only to wrap an error; an
+            # ill-formed body (e.g. control characters of the rejected upload
+            # echoed in the description) is still a refusal, not a success
+            m = re.search(rb"HTTP/1\.1 (\d{3})", resp.body)
+            return (int(m.group(1)) if m else 599), ["vf:ill-formed-error-body"]
         return resp.status, None
     if len(rs) == 1 and rs[0].error is not None and rs[0].status is not None:
         return rs[0].status, rs[0].error
